@@ -32,6 +32,7 @@ struct hevent {
 
 struct lock_harness final : harness {
   std::string default_prop() override { return "C07"; }
+  std::string livelock_property() override { return "none"; }  // C07 is a safety property
 
   void setup_process() override {
     auto& S = scheduler::get();
